@@ -18,7 +18,7 @@ CHECKS = {
  "C17": ("SIM-SYS", "seeded search over create / lookup / remove (asynchronous and blocking) / re-create histories with sinks shared in random patterns, removal while statements are still queued, backend stalls around the removal, scoped CsvWriter cycles over a small pool of file names, x schedules; exactly-once delivery, registry model (lookup idempotent, blocking removal complete on return, new sinks after re-creation), sink destruction iff unreferenced, blocking-removal liveness in the fair phase; ASan flavour in the thorough tier for premature frees; sampling, not proof", SIMSYS_NOTE + "; API contract respected by construction (barriers before removal, no same-name re-creation after asynchronous removal)", TECH),
  "C18": ("SIM-SYS", "seeded search over store/flush/re-init histories (capacity 1-8, 0..3*capacity+3 stores per cycle, explicit and flush-level triggered flushes, several cycles incl. after a wrapped flush; 1 run in 4: 2-3 threads storing into one ring concurrently, flush after they are joined) x schedules; sink sequence compared with an executable reference ring model (multi-writer: count, per-thread most-recent suffix, attribution); a sink throwing during a replay as fault variant; sampling, not proof", SIMSYS_NOTE + "; exact model with one writer thread per backtrace logger, re-initialisation only with an empty ring", TECH),
  "C20": ("SIM-SYS", "seeded search over thread start/exit histories (waves of 1-512 real short-lived threads, sizes biased to k*256+-1, backend stalled or busy during the wave), shrink requests after growth; context count through the public ThreadContextManager API at a quiescent point in the fair phase + exactly-once delivery oracle; sampling, not proof", SIMSYS_NOTE, TECH),
- "C04": ("SIM-SYS", "seeded search over a compiled pool of 57 typed call sites (incl. the LOGV_ / LOGJ_ / _LIMIT / _LIMIT_EVERY_N / _TAGS / runtime-metadata macro families; value space sampled by a seeded generator) x schedules that decide whether the backend decodes before or after the caller overwrote and destroyed its arguments, at which ring offset the record lies and whether the queue grows at this record; expected text = fmtquill::format at the call site + the sanitisation configured for the run (library default, a stricter user check_printable_char, or none); quill's own size-accounting asserts enabled, every following statement of the thread must still decode; sampling, not proof", SIMSYS_NOTE + "; the value space part is ordinary seeded generation — the simulator contributes the timing of decode vs mutation and record placement", TECH),
+ "C04": ("SIM-SYS", "seeded search over a compiled pool of 58 typed call sites (incl. the LOGV_ / LOGJ_ / _LIMIT / _LIMIT_EVERY_N / _TAGS / runtime-metadata macro families; value space sampled by a seeded generator) x schedules that decide whether the backend decodes before or after the caller overwrote and destroyed its arguments, at which ring offset the record lies and whether the queue grows at this record; expected text = fmtquill::format at the call site + the sanitisation configured for the run (library default, a stricter user check_printable_char, or none); quill's own size-accounting asserts enabled, every following statement of the thread must still decode; sampling, not proof", SIMSYS_NOTE + "; the value space part is ordinary seeded generation — the simulator contributes the timing of decode vs mutation and record placement", TECH),
  "C05": ("SIM-SYS", "seeded search over schedules with a virtual clock (System and TSC), stalls between a thread's clock read and its commit, backend stalls at the clock read of a pass next to first-time threads, small soft/hard limits; running-maximum timestamp oracle over all write_log calls with a conservative lateness excuse; sampling, not proof", SIMSYS_NOTE + "; TSC runs tolerate inversions below RdtscClock's 3.4 us resync window", TECH),
  "C06": ("SIM-SYS", "seeded search over schedules, all four queue types, first-time threads next to backend stalls, recording and real file sinks; the oracle is evaluated in the very scheduler step in which flush_log() returns (sink records, flush marks, file read back through a fresh descriptor); liveness judged only in the fair phase; sampling, not proof", SIMSYS_NOTE + "; cross-thread clause with a TSC logger involved demanded only beyond RdtscClock's 3.4 us resync window", TECH),
 }
